@@ -1,10 +1,10 @@
-from textwrap import indent
 
 from pydbml.classes import TableGroup
 from pydbml.renderer.dbml.default.renderer import DefaultDBMLRenderer
 from pydbml.renderer.dbml.default.table import get_full_name_for_dbml
 from pydbml.renderer.dbml.default.utils import comment_to_dbml
 from pydbml.tools import doublequote_string
+from pydbml.tools import indent_lines as indent
 
 
 @DefaultDBMLRenderer.renderer_for(TableGroup)
